@@ -10,7 +10,7 @@ RULE = ("case = one configuration (T in {2,3,4,8,16} threads) x (delay mode: non
         "30 s = violation; a fresh thread must get both guard kinds after the run). Three more trials, each the last thing its process does: the "
         "thread that holds a guard asks for a second one (injector in injector, preventer in injector, injector in preventer); if it is "
         "granted (today it waits for itself for good) the outer guard is dropped first and another thread must still be kept out, and a "
-        "preventer holder must still see the original. Also 70 000 uncontended acquisitions in a row followed by a fresh thread (counters that wrap). Thorough tier: one holder keeps its guard for 40 s with a waiter queued; the waiter must neither get in early nor be turned away, and must get a working guard afterwards. distinct = (threads, delay mode) configurations; the "
+        "preventer holder must still see the original. Also fork() while holding an injector (a second thread in the child must not be given a guard), and 70 000 uncontended acquisitions in a row followed by a fresh thread (counters that wrap). Thorough tier: one holder keeps its guard for 40 s with a waiter queued; the waiter must neither get in early nor be turned away, and must get a working guard afterwards. distinct = (threads, delay mode) configurations; the "
         "evidence lists contended hand-overs, distinct predecessor->successor transitions (36 possible) and distinct acquisition-order windows")
 
 
